@@ -247,6 +247,26 @@ def d_seq(s, w=3):
     return {'ins': {}}
 
 
+def d_bidir_bus(s, w=3):
+    """a registered driver on a bidirectional net (hw.bidir_wire) read back through a pad buffer that only listens:
+    a -> Reg r0 -> bus (BidirWire) -> BidirBuf(poe=0) -> pin -> Reg r1 -> out, next to the same path on plain wires"""
+    from py4hw.logic.bitwise import BidirBuf, Buf
+    a = s.wire('a', w)
+    bus = s.bidir_wire('bus', w)
+    pin, out = s.wire('pin', w), s.wire('out', w)
+    poutc, poec = s.wire('poutc', w), s.wire('poec', 1)
+    Constant(s, 'poutc', 0, poutc)
+    Constant(s, 'poec', 0, poec)
+    Reg(s, 'r0', a, bus)
+    BidirBuf(s, 'pad', pin, poutc, poec, bus)
+    Reg(s, 'r1', pin, out)
+    pbus, ppin, pout = s.wire('pbus', w), s.wire('ppin', w), s.wire('pout', w)
+    Reg(s, 'p0', a, pbus)
+    Buf(s, 'pbuf', pbus, ppin)
+    Reg(s, 'p1', ppin, pout)
+    return {'ins': {'a': a}}
+
+
 def d_two_domains(s, w=3, gate='input', enw=1):
     """top-level Reg chain crossing into a Box that has its own (gated) clock driver"""
     a = s.wire('a', w)
@@ -387,4 +407,5 @@ DESIGNS = {
     'reg-fsm-reg': d_fsm,
     'counter-edge-reg': d_counter_edge,
     'sequence-reg': d_seq,
+    'registered driver on a bidirectional net': d_bidir_bus,
 }
